@@ -5,7 +5,7 @@ use crate::common::*;
 use crate::track;
 use crate::types::*;
 use gc_arena::gc::{Fat, GcKind, Thin};
-use gc_arena::meta::{TypeMeta, UnitPtrMeta};
+use gc_arena::meta::{TypeMeta, UnitPtrMeta, UnitTypeMeta};
 use gc_arena::slice::{SlicePtrMeta, SliceWithHeaderPtrMeta, StrPtrMeta};
 use gc_arena::{
     Collect, Gc, GcBuilder, GcSliceBuilder, GcSliceWithHeaderBuilder, GcStrBuilder, Mutation, SliceWithHeader, Static,
@@ -15,13 +15,61 @@ use std::mem::{align_of, size_of};
 use std::panic::{AssertUnwindSafe, catch_unwind};
 
 // ------------------------------------------------------------------------------------------
+// the public allocation entry points: `X::new(..)` and `X::new_with_type_meta::<TM>(..)`
+// ------------------------------------------------------------------------------------------
+pub trait Route: 'static {
+    type M: 'static;
+    type TM: TypeMeta<TypeMetadata = Self::M>;
+    fn sized<'gc, W: Collect<'gc>>() -> GcBuilder<'gc, W, Self::M, UnitPtrMeta>;
+    fn swh<'gc, H: Collect<'gc>, E: Collect<'gc>>(len: usize) -> GcSliceWithHeaderBuilder<'gc, H, E, Self::M>;
+    fn slice<'gc, E: Collect<'gc>>(len: usize) -> GcSliceBuilder<'gc, E, Self::M>;
+    fn strb<'gc>(len: usize) -> GcStrBuilder<'gc, Self::M>;
+}
+/// `GcBuilder::new`, `GcSliceWithHeaderBuilder::new`, `GcSliceBuilder::new`, `GcStrBuilder::new`.
+pub struct ViaNew;
+impl Route for ViaNew {
+    type M = ();
+    type TM = UnitTypeMeta;
+    fn sized<'gc, W: Collect<'gc>>() -> GcBuilder<'gc, W, (), UnitPtrMeta> {
+        GcBuilder::new()
+    }
+    fn swh<'gc, H: Collect<'gc>, E: Collect<'gc>>(len: usize) -> GcSliceWithHeaderBuilder<'gc, H, E, ()> {
+        GcSliceWithHeaderBuilder::new(len)
+    }
+    fn slice<'gc, E: Collect<'gc>>(len: usize) -> GcSliceBuilder<'gc, E, ()> {
+        GcSliceBuilder::new(len)
+    }
+    fn strb<'gc>(len: usize) -> GcStrBuilder<'gc, ()> {
+        GcStrBuilder::new(len)
+    }
+}
+/// The four `new_with_type_meta::<TM>` entry points, with a non-unit per-type metadata.
+pub struct ViaTm;
+impl Route for ViaTm {
+    type M = u32;
+    type TM = Tm7;
+    fn sized<'gc, W: Collect<'gc>>() -> GcBuilder<'gc, W, u32, UnitPtrMeta> {
+        GcBuilder::new_with_type_meta::<Tm7>()
+    }
+    fn swh<'gc, H: Collect<'gc>, E: Collect<'gc>>(len: usize) -> GcSliceWithHeaderBuilder<'gc, H, E, u32> {
+        GcSliceWithHeaderBuilder::new_with_type_meta::<Tm7>(len)
+    }
+    fn slice<'gc, E: Collect<'gc>>(len: usize) -> GcSliceBuilder<'gc, E, u32> {
+        GcSliceBuilder::new_with_type_meta::<Tm7>(len)
+    }
+    fn strb<'gc>(len: usize) -> GcStrBuilder<'gc, u32> {
+        GcStrBuilder::new_with_type_meta::<Tm7>(len)
+    }
+}
+
+// ------------------------------------------------------------------------------------------
 // sized values (metadata `()`)
 // ------------------------------------------------------------------------------------------
-fn sized_typed<'gc, W: Collect<'gc> + 'gc>(mc: &Mutation<'gc>, root: &mut Root<'gc>, st: &mut LayoutSt, out: &mut CaseOut) {
+fn sized_typed<'gc, W: Collect<'gc> + 'gc, R: Route>(mc: &Mutation<'gc>, root: &mut Root<'gc>, st: &mut LayoutSt, out: &mut CaseOut) {
     let vs = size_of::<W>();
     track::set_fill(FILL_A);
     let n0 = track::log_len();
-    let mut b1 = on(|| GcBuilder::<W>::new());
+    let mut b1 = on(|| R::sized::<W>());
     let v1 = b1.as_ptr() as usize;
     match observe(n0, v1, FILL_A) {
         Ok(o) => st.obs.push(o),
@@ -33,7 +81,7 @@ fn sized_typed<'gc, W: Collect<'gc> + 'gc>(mc: &Mutation<'gc>, root: &mut Root<'
 
     track::set_fill(FILL_B);
     let n2 = track::log_len();
-    let mut b2 = on(|| GcBuilder::<W>::new());
+    let mut b2 = on(|| R::sized::<W>());
     let v2 = b2.as_ptr() as usize;
     match observe(n2, v2, FILL_B) {
         Ok(o) => st.obs.push(o),
@@ -47,29 +95,33 @@ fn sized_typed<'gc, W: Collect<'gc> + 'gc>(mc: &Mutation<'gc>, root: &mut Root<'
             st.pattern = true;
         }
     }
-    let gc: Gc<'gc, W> = on(|| unsafe { b2.assume_init(mc) });
+    let gc: Gc<'gc, W, GcKind<Fat, R::M, UnitPtrMeta>> = on(|| unsafe { b2.assume_init(mc) });
     // raw pointer / thin / fat round trips
     let p = Gc::as_ptr(gc);
     out.check(p as usize == v2, || "Gc::as_ptr differs from the builder pointer".into());
-    let g2: Gc<'gc, W> = unsafe { Gc::from_ptr(p) };
+    let g2 = unsafe { Gc::<'gc, W, GcKind<Fat, R::M, UnitPtrMeta>>::from_ptr_with_kind(p) };
     out.check(Gc::ptr_eq(gc, g2) && Gc::as_ptr(g2) == p, || "Gc::from_ptr(Gc::as_ptr(gc)) is a different pointer".into());
     let thin = Gc::as_thin(gc);
     out.check(Gc::as_thin_ptr(thin) as usize == v2, || "as_thin changed the address".into());
     let fat = Gc::as_fat(thin);
     out.check(Gc::as_ptr(fat) == p && Gc::as_ptr(thin) == p, || "as_fat(as_thin(gc)) changed the address".into());
-    let thin2 = unsafe { Gc::<'gc, W, GcKind<Thin, (), UnitPtrMeta>>::from_thin_ptr_with_kind(Gc::as_thin_ptr(thin)) };
+    let thin2 = unsafe { Gc::<'gc, W, GcKind<Thin, R::M, UnitPtrMeta>>::from_thin_ptr_with_kind(Gc::as_thin_ptr(thin)) };
     out.check(Gc::as_ptr(thin2) == p, || "from_thin_ptr_with_kind(as_thin_ptr) changed the address".into());
     root.keep.push(Gc::erase(gc));
 }
 
 pub fn sized_case<W: for<'a> Collect<'a> + 'static>(cx: &mut Cx) {
+    sized_case_r::<W, ViaNew>(cx)
+}
+
+pub fn sized_case_r<W: for<'a> Collect<'a> + 'static, R: Route>(cx: &mut Cx) {
     let (vs, va) = (size_of::<W>(), align_of::<W>());
     let hdr = (cx.hdr_size, cx.hdr_align);
     let seed = cx.seed ^ cx.rand();
     run_case(cx, format!("sized 0 1 {vs} {va}"), |out| {
         let mut st = LayoutSt { value_size: vs, value_align: va, meta_align: 1, seed, ..Default::default() };
         let mut arena = on(|| A::new(|_| Root::default()));
-        arena.mutate_root(|mc, root| sized_typed::<W>(mc, root, &mut st, out));
+        arena.mutate_root(|mc, root| sized_typed::<W, R>(mc, root, &mut st, out));
         let Some(head) = layout_answer_head(hdr, &mut st, out) else {
             on(|| drop(arena));
             return;
@@ -187,6 +239,9 @@ pub enum DstKind {
     Slice,
     Str,
     Swh,
+    SliceDirect,
+    StrDirect,
+    SwhDirect,
 }
 impl DstKind {
     fn name(self) -> &'static str {
@@ -194,6 +249,9 @@ impl DstKind {
             DstKind::Slice => "slice",
             DstKind::Str => "str",
             DstKind::Swh => "swh",
+            DstKind::SliceDirect => "slice-direct",
+            DstKind::StrDirect => "str-direct",
+            DstKind::SwhDirect => "swh-direct",
         }
     }
 }
@@ -251,15 +309,15 @@ fn dst_observe_pair(
     }
 }
 
-fn swh_typed<'gc, H: Pod, E: Pod>(mc: &Mutation<'gc>, root: &mut Root<'gc>, len: usize, st: &mut DstSt, out: &mut CaseOut) {
-    let mut slot: Vec<GcSliceWithHeaderBuilder<'gc, Static<H>, Static<E>>> = Vec::new();
+fn swh_typed<'gc, H: Pod, E: Pod, R: Route>(mc: &Mutation<'gc>, root: &mut Root<'gc>, len: usize, st: &mut DstSt, out: &mut CaseOut) {
+    let mut slot: Vec<GcSliceWithHeaderBuilder<'gc, Static<H>, Static<E>, R::M>> = Vec::new();
     {
         let slot_ptr: *mut Vec<_> = &mut slot;
         dst_observe_pair(
             st,
             out,
             || {
-                let mut b = on(|| GcSliceWithHeaderBuilder::<Static<H>, Static<E>>::new(len));
+                let mut b = on(|| R::swh::<Static<H>, Static<E>>(len));
                 let v = b.header_ptr() as usize;
                 unsafe { (*slot_ptr).push(b) };
                 v
@@ -286,7 +344,7 @@ fn swh_typed<'gc, H: Pod, E: Pod>(mc: &Mutation<'gc>, root: &mut Root<'gc>, len:
     st.len_obs.push(r.slice.len());
     let p = Gc::as_ptr(gc);
     out.check(p as *const () as usize == v2, || "Gc::as_ptr differs from the builder pointer".into());
-    let g2 = unsafe { Gc::<SliceWithHeader<H, E>, GcKind<Fat, (), SliceWithHeaderPtrMeta>>::from_ptr_with_kind(p) };
+    let g2 = unsafe { Gc::<SliceWithHeader<H, E>, GcKind<Fat, R::M, SliceWithHeaderPtrMeta>>::from_ptr_with_kind(p) };
     out.check(Gc::ptr_eq(gc, g2), || "from_ptr_with_kind(as_ptr) is a different pointer".into());
     let thin = Gc::as_thin(gc);
     out.check(Gc::as_thin_ptr(thin) as usize == v2, || "as_thin changed the address".into());
@@ -299,15 +357,15 @@ fn swh_typed<'gc, H: Pod, E: Pod>(mc: &Mutation<'gc>, root: &mut Root<'gc>, len:
     root.keep.push(Gc::erase(gc));
 }
 
-fn slice_typed<'gc, E: Pod>(mc: &Mutation<'gc>, root: &mut Root<'gc>, len: usize, st: &mut DstSt, out: &mut CaseOut) {
-    let mut slot: Vec<GcSliceBuilder<'gc, Static<E>>> = Vec::new();
+fn slice_typed<'gc, E: Pod, R: Route>(mc: &Mutation<'gc>, root: &mut Root<'gc>, len: usize, st: &mut DstSt, out: &mut CaseOut) {
+    let mut slot: Vec<GcSliceBuilder<'gc, Static<E>, R::M>> = Vec::new();
     {
         let slot_ptr: *mut Vec<_> = &mut slot;
         dst_observe_pair(
             st,
             out,
             || {
-                let mut b = on(|| GcSliceBuilder::<Static<E>>::new(len));
+                let mut b = on(|| R::slice::<Static<E>>(len));
                 let v = b.slice_ptr() as *mut E as usize;
                 unsafe { (*slot_ptr).push(b) };
                 v
@@ -331,7 +389,7 @@ fn slice_typed<'gc, E: Pod>(mc: &Mutation<'gc>, root: &mut Root<'gc>, len: usize
     st.len_obs.push(r.len());
     let p = Gc::as_ptr(gc);
     out.check(p as *const () as usize == v2, || "Gc::as_ptr differs from the builder pointer".into());
-    let g2 = unsafe { Gc::<[E], GcKind<Fat, (), SlicePtrMeta>>::from_ptr_with_kind(p) };
+    let g2 = unsafe { Gc::<[E], GcKind<Fat, R::M, SlicePtrMeta>>::from_ptr_with_kind(p) };
     out.check(Gc::ptr_eq(gc, g2), || "from_ptr_with_kind(as_ptr) is a different pointer".into());
     let thin = Gc::as_thin(gc);
     out.check(Gc::as_thin_ptr(thin) as usize == v2, || "as_thin changed the address".into());
@@ -344,15 +402,15 @@ fn slice_typed<'gc, E: Pod>(mc: &Mutation<'gc>, root: &mut Root<'gc>, len: usize
     root.keep.push(Gc::erase(gc));
 }
 
-fn str_typed<'gc>(mc: &Mutation<'gc>, root: &mut Root<'gc>, len: usize, st: &mut DstSt, out: &mut CaseOut) {
-    let mut slot: Vec<GcStrBuilder<'gc>> = Vec::new();
+fn str_typed<'gc, R: Route>(mc: &Mutation<'gc>, root: &mut Root<'gc>, len: usize, st: &mut DstSt, out: &mut CaseOut) {
+    let mut slot: Vec<GcStrBuilder<'gc, R::M>> = Vec::new();
     {
         let slot_ptr: *mut Vec<_> = &mut slot;
         dst_observe_pair(
             st,
             out,
             || {
-                let mut b = on(|| GcStrBuilder::new(len));
+                let mut b = on(|| R::strb(len));
                 let v = b.str_ptr() as *mut u8 as usize;
                 unsafe { (*slot_ptr).push(b) };
                 v
@@ -375,7 +433,7 @@ fn str_typed<'gc>(mc: &Mutation<'gc>, root: &mut Root<'gc>, len: usize, st: &mut
     st.len_obs.push(r.len());
     let p = Gc::as_ptr(gc);
     out.check(p as *const () as usize == v2, || "Gc::as_ptr differs from the builder pointer".into());
-    let g2 = unsafe { Gc::<str, GcKind<Fat, (), StrPtrMeta>>::from_ptr_with_kind(p) };
+    let g2 = unsafe { Gc::<str, GcKind<Fat, R::M, StrPtrMeta>>::from_ptr_with_kind(p) };
     out.check(Gc::ptr_eq(gc, g2), || "from_ptr_with_kind(as_ptr) is a different pointer".into());
     let thin = Gc::as_thin(gc);
     out.check(Gc::as_thin_ptr(thin) as usize == v2, || "as_thin changed the address".into());
@@ -454,29 +512,213 @@ fn dst_run(
 }
 
 pub fn swh_case<H: Pod, E: Pod>(cx: &mut Cx, len: usize) {
+    swh_case_r::<H, E, ViaNew>(cx, len)
+}
+
+pub fn swh_case_r<H: Pod, E: Pod, R: Route>(cx: &mut Cx, len: usize) {
     let lays = (size_of::<H>(), align_of::<H>(), size_of::<E>(), align_of::<E>());
-    dst_run(cx, DstKind::Swh, lays, len, |mc, root, st, out| swh_typed::<H, E>(mc, root, len, st, out), |tp| {
+    dst_run(cx, DstKind::Swh, lays, len, |mc, root, st, out| swh_typed::<H, E, R>(mc, root, len, st, out), |tp| {
         gc_arena::arena::rootless_mutate(|_| {
-            let thin = unsafe { Gc::<SliceWithHeader<H, E>, GcKind<Thin, (), SliceWithHeaderPtrMeta>>::from_thin_ptr_with_kind(tp as *const H) };
+            let thin = unsafe { Gc::<SliceWithHeader<H, E>, GcKind<Thin, R::M, SliceWithHeaderPtrMeta>>::from_thin_ptr_with_kind(tp as *const H) };
             thin.slice.len()
         })
     });
 }
 
 pub fn slice_case<E: Pod>(cx: &mut Cx, len: usize) {
+    slice_case_r::<E, ViaNew>(cx, len)
+}
+
+pub fn slice_case_r<E: Pod, R: Route>(cx: &mut Cx, len: usize) {
     let lays = (0, 1, size_of::<E>(), align_of::<E>());
-    dst_run(cx, DstKind::Slice, lays, len, |mc, root, st, out| slice_typed::<E>(mc, root, len, st, out), |tp| {
+    dst_run(cx, DstKind::Slice, lays, len, |mc, root, st, out| slice_typed::<E, R>(mc, root, len, st, out), |tp| {
         gc_arena::arena::rootless_mutate(|_| {
-            let thin = unsafe { Gc::<[E], GcKind<Thin, (), SlicePtrMeta>>::from_thin_ptr_with_kind(tp as *const ()) };
+            let thin = unsafe { Gc::<[E], GcKind<Thin, R::M, SlicePtrMeta>>::from_thin_ptr_with_kind(tp as *const ()) };
             thin.len()
         })
     });
 }
 
 pub fn str_case(cx: &mut Cx, len: usize) {
-    dst_run(cx, DstKind::Str, (0, 1, 1, 1), len, |mc, root, st, out| str_typed(mc, root, len, st, out), |tp| {
+    str_case_r::<ViaNew>(cx, len)
+}
+
+pub fn str_case_r<R: Route>(cx: &mut Cx, len: usize) {
+    dst_run(cx, DstKind::Str, (0, 1, 1, 1), len, |mc, root, st, out| str_typed::<R>(mc, root, len, st, out), |tp| {
         gc_arena::arena::rootless_mutate(|_| {
-            let thin = unsafe { Gc::<str, GcKind<Thin, (), StrPtrMeta>>::from_thin_ptr_with_kind(tp as *const ()) };
+            let thin = unsafe { Gc::<str, GcKind<Thin, R::M, StrPtrMeta>>::from_thin_ptr_with_kind(tp as *const ()) };
+            thin.len()
+        })
+    });
+}
+
+// ------------------------------------------------------------------------------------------
+// every `AllocMeta` impl reached DIRECTLY through the public entry point
+// `GcBuilder::<T, M, P>::new_with_type_and_ptr_meta::<TM>(ptr_meta)`: `P::layout` decides the
+// block both on allocation and on release (the crate's own slice / str constructors allocate
+// through `SliceWithHeaderPtrMeta` and only re-label the pointer, so `SlicePtrMeta::layout` and
+// `StrPtrMeta::layout` are reached on this path only)
+// ------------------------------------------------------------------------------------------
+fn swh_direct_typed<'gc, H: Pod, E: Pod, R: Route>(mc: &Mutation<'gc>, root: &mut Root<'gc>, len: usize, st: &mut DstSt, out: &mut CaseOut) {
+    type T<H, E> = SliceWithHeader<Static<H>, Static<E>>;
+    let mut slot: Vec<GcBuilder<'gc, T<H, E>, R::M, SliceWithHeaderPtrMeta>> = Vec::new();
+    {
+        let slot_ptr: *mut Vec<_> = &mut slot;
+        dst_observe_pair(
+            st,
+            out,
+            || {
+                let mut b = on(|| unsafe { GcBuilder::<T<H, E>, R::M, SliceWithHeaderPtrMeta>::new_with_type_and_ptr_meta::<R::TM>(len) });
+                let v = b.as_ptr() as *mut () as usize;
+                unsafe { (*slot_ptr).push(b) };
+                v
+            },
+            || {
+                let b = unsafe { (*slot_ptr).pop().unwrap() };
+                on(|| drop(b));
+            },
+        );
+    }
+    let mut b2 = slot.pop().unwrap();
+    let bp = b2.as_ptr();
+    let v2 = bp as *mut () as usize;
+    let sp: *mut [Static<E>] = unsafe { &raw mut (*bp).slice };
+    st.sliceoff_obs = Some((sp as *mut E as usize).wrapping_sub(v2));
+    st.len_obs.push(sp.len());
+    let gc = on(|| unsafe { b2.assume_init(mc) });
+    let r: &T<H, E> = gc.as_ref();
+    st.vsize_obs = Some(std::mem::size_of_val(r));
+    st.valign_obs = Some(std::mem::align_of_val(r));
+    st.len_obs.push(r.slice.len());
+    let p = Gc::as_ptr(gc);
+    out.check(p as *const () as usize == v2, || "Gc::as_ptr differs from the builder pointer".into());
+    let g2 = unsafe { Gc::<T<H, E>, GcKind<Fat, R::M, SliceWithHeaderPtrMeta>>::from_ptr_with_kind(p) };
+    out.check(Gc::ptr_eq(gc, g2), || "from_ptr_with_kind(as_ptr) is a different pointer".into());
+    let thin = Gc::as_thin(gc);
+    out.check(Gc::as_thin_ptr(thin) as usize == v2, || "as_thin changed the address".into());
+    st.len_obs.push(thin.slice.len());
+    let fat = Gc::as_fat(thin);
+    let fp = Gc::as_ptr(fat);
+    out.check(fp as *const () as usize == v2, || "as_fat(as_thin(gc)) changed the address".into());
+    st.len_obs.push(unsafe { (&*fp).slice.len() });
+    st.thin_ptr = Gc::as_thin_ptr(thin) as usize;
+    root.keep.push(Gc::erase(gc));
+}
+
+fn slice_direct_typed<'gc, E: Pod, R: Route>(mc: &Mutation<'gc>, root: &mut Root<'gc>, len: usize, st: &mut DstSt, out: &mut CaseOut) {
+    let mut slot: Vec<GcBuilder<'gc, [Static<E>], R::M, SlicePtrMeta>> = Vec::new();
+    {
+        let slot_ptr: *mut Vec<_> = &mut slot;
+        dst_observe_pair(
+            st,
+            out,
+            || {
+                let mut b = on(|| unsafe { GcBuilder::<[Static<E>], R::M, SlicePtrMeta>::new_with_type_and_ptr_meta::<R::TM>(len) });
+                let v = b.as_ptr() as *mut E as usize;
+                unsafe { (*slot_ptr).push(b) };
+                v
+            },
+            || {
+                let b = unsafe { (*slot_ptr).pop().unwrap() };
+                on(|| drop(b));
+            },
+        );
+    }
+    let mut b2 = slot.pop().unwrap();
+    let sp = b2.as_ptr();
+    let v2 = sp as *mut E as usize;
+    st.sliceoff_obs = Some(0);
+    st.len_obs.push(sp.len());
+    let gc = on(|| unsafe { b2.assume_init(mc) });
+    let r: &[Static<E>] = gc.as_ref();
+    st.vsize_obs = Some(std::mem::size_of_val(r));
+    st.valign_obs = Some(std::mem::align_of_val(r));
+    st.len_obs.push(r.len());
+    let p = Gc::as_ptr(gc);
+    out.check(p as *const () as usize == v2, || "Gc::as_ptr differs from the builder pointer".into());
+    let g2 = unsafe { Gc::<[Static<E>], GcKind<Fat, R::M, SlicePtrMeta>>::from_ptr_with_kind(p) };
+    out.check(Gc::ptr_eq(gc, g2), || "from_ptr_with_kind(as_ptr) is a different pointer".into());
+    let thin = Gc::as_thin(gc);
+    out.check(Gc::as_thin_ptr(thin) as usize == v2, || "as_thin changed the address".into());
+    st.len_obs.push(thin.len());
+    let fat = Gc::as_fat(thin);
+    let fp = Gc::as_ptr(fat);
+    out.check(fp as *const () as usize == v2, || "as_fat(as_thin(gc)) changed the address".into());
+    st.len_obs.push(fp.len());
+    st.thin_ptr = Gc::as_thin_ptr(thin) as usize;
+    root.keep.push(Gc::erase(gc));
+}
+
+fn str_direct_typed<'gc, R: Route>(mc: &Mutation<'gc>, root: &mut Root<'gc>, len: usize, st: &mut DstSt, out: &mut CaseOut) {
+    let mut slot: Vec<GcBuilder<'gc, str, R::M, StrPtrMeta>> = Vec::new();
+    {
+        let slot_ptr: *mut Vec<_> = &mut slot;
+        dst_observe_pair(
+            st,
+            out,
+            || {
+                let mut b = on(|| unsafe { GcBuilder::<str, R::M, StrPtrMeta>::new_with_type_and_ptr_meta::<R::TM>(len) });
+                let v = b.as_ptr() as *mut u8 as usize;
+                unsafe { (*slot_ptr).push(b) };
+                v
+            },
+            || {
+                let b = unsafe { (*slot_ptr).pop().unwrap() };
+                on(|| drop(b));
+            },
+        );
+    }
+    let mut b2 = slot.pop().unwrap();
+    let sp = b2.as_ptr();
+    let v2 = sp as *mut u8 as usize;
+    st.sliceoff_obs = Some(0);
+    st.len_obs.push((sp as *mut [u8]).len());
+    let gc = on(|| unsafe { b2.assume_init(mc) });
+    let r: &str = gc.as_ref();
+    st.vsize_obs = Some(std::mem::size_of_val(r));
+    st.valign_obs = Some(std::mem::align_of_val(r));
+    st.len_obs.push(r.len());
+    let p = Gc::as_ptr(gc);
+    out.check(p as *const () as usize == v2, || "Gc::as_ptr differs from the builder pointer".into());
+    let g2 = unsafe { Gc::<str, GcKind<Fat, R::M, StrPtrMeta>>::from_ptr_with_kind(p) };
+    out.check(Gc::ptr_eq(gc, g2), || "from_ptr_with_kind(as_ptr) is a different pointer".into());
+    let thin = Gc::as_thin(gc);
+    out.check(Gc::as_thin_ptr(thin) as usize == v2, || "as_thin changed the address".into());
+    st.len_obs.push(thin.len());
+    let fat = Gc::as_fat(thin);
+    let fp = Gc::as_ptr(fat);
+    out.check(fp as *const () as usize == v2, || "as_fat(as_thin(gc)) changed the address".into());
+    st.len_obs.push((fp as *const [u8]).len());
+    st.thin_ptr = Gc::as_thin_ptr(thin) as usize;
+    root.keep.push(Gc::erase(gc));
+}
+
+pub fn swh_direct_case<H: Pod, E: Pod, R: Route>(cx: &mut Cx, len: usize) {
+    let lays = (size_of::<H>(), align_of::<H>(), size_of::<E>(), align_of::<E>());
+    dst_run(cx, DstKind::SwhDirect, lays, len, |mc, root, st, out| swh_direct_typed::<H, E, R>(mc, root, len, st, out), |tp| {
+        gc_arena::arena::rootless_mutate(|_| {
+            let thin = unsafe {
+                Gc::<SliceWithHeader<Static<H>, Static<E>>, GcKind<Thin, R::M, SliceWithHeaderPtrMeta>>::from_thin_ptr_with_kind(tp as *const Static<H>)
+            };
+            thin.slice.len()
+        })
+    });
+}
+
+pub fn slice_direct_case<E: Pod, R: Route>(cx: &mut Cx, len: usize) {
+    let lays = (0, 1, size_of::<E>(), align_of::<E>());
+    dst_run(cx, DstKind::SliceDirect, lays, len, |mc, root, st, out| slice_direct_typed::<E, R>(mc, root, len, st, out), |tp| {
+        gc_arena::arena::rootless_mutate(|_| {
+            let thin = unsafe { Gc::<[Static<E>], GcKind<Thin, R::M, SlicePtrMeta>>::from_thin_ptr_with_kind(tp as *const ()) };
+            thin.len()
+        })
+    });
+}
+
+pub fn str_direct_case<R: Route>(cx: &mut Cx, len: usize) {
+    dst_run(cx, DstKind::StrDirect, (0, 1, 1, 1), len, |mc, root, st, out| str_direct_typed::<R>(mc, root, len, st, out), |tp| {
+        gc_arena::arena::rootless_mutate(|_| {
+            let thin = unsafe { Gc::<str, GcKind<Thin, R::M, StrPtrMeta>>::from_thin_ptr_with_kind(tp as *const ()) };
             thin.len()
         })
     });
@@ -487,7 +729,7 @@ pub fn str_case(cx: &mut Cx, len: usize) {
 // ------------------------------------------------------------------------------------------
 pub fn overflow_case<H: Pod, E: Pod>(cx: &mut Cx, kind: DstKind, len: usize) {
     let (hs, ha, es, ea) = match kind {
-        DstKind::Swh => (size_of::<H>(), align_of::<H>(), size_of::<E>(), align_of::<E>()),
+        DstKind::Swh | DstKind::SwhDirect => (size_of::<H>(), align_of::<H>(), size_of::<E>(), align_of::<E>()),
         _ => (0, 1, size_of::<E>(), align_of::<E>()),
     };
     let min_align = cx.hdr_align.max(2);
@@ -505,6 +747,20 @@ pub fn overflow_case<H: Pod, E: Pod>(cx: &mut Cx, kind: DstKind, len: usize) {
                 }
                 DstKind::Str => {
                     let b = on(|| GcStrBuilder::new(len));
+                    on(|| drop(b));
+                }
+                DstKind::SwhDirect => {
+                    let b = on(|| unsafe {
+                        GcBuilder::<SliceWithHeader<Static<H>, Static<E>>, (), SliceWithHeaderPtrMeta>::new_with_type_and_ptr_meta::<UnitTypeMeta>(len)
+                    });
+                    on(|| drop(b));
+                }
+                DstKind::SliceDirect => {
+                    let b = on(|| unsafe { GcBuilder::<[Static<E>], (), SlicePtrMeta>::new_with_type_and_ptr_meta::<UnitTypeMeta>(len) });
+                    on(|| drop(b));
+                }
+                DstKind::StrDirect => {
+                    let b = on(|| unsafe { GcBuilder::<str, (), StrPtrMeta>::new_with_type_and_ptr_meta::<UnitTypeMeta>(len) });
                     on(|| drop(b));
                 }
             })
